@@ -156,6 +156,10 @@ func (g *c20gen) timeVal() (time.Time, exp) {
 	if g.r.P(1, 40) {
 		t = time.Time{}
 	}
+	if g.timeFmt == "" {
+		// StructOptions.TimeFormat: "if empty, use ISO-8601"
+		return t, exp{kind: "string", s: t.Format(time.RFC3339)}
+	}
 	return t, exp{kind: "string", s: t.Format(g.timeFmt)}
 }
 
@@ -719,7 +723,7 @@ func init() {
 				ctx.Obs("law_pools", 1)
 				return fw.Result{Verdict: fw.Held}
 			}
-			g := &c20gen{r: r, lowerCamel: r.Bool(), timeFmt: []string{time.RFC3339, time.RFC1123, "2006-01-02"}[r.Intn(3)], kinds: map[string]bool{}}
+			g := &c20gen{r: r, lowerCamel: r.Bool(), timeFmt: []string{time.RFC3339, time.RFC1123, "2006-01-02", ""}[r.Intn(4)], kinds: map[string]bool{}}
 			depth := 1 + r.Intn(3)
 			v, want := g.value(depth)
 			opts := data.StructOptions{LowerCamel: g.lowerCamel, TimeFormat: g.timeFmt}
